@@ -24,5 +24,5 @@ EmitPairs == LET all == TypeSeq(Tier) IN
                               pairs |-> [i \in 1 .. Len(all) |-> [allowed |-> AllowedPass(dt, all[i]), b |-> all[i]]]])>>)
 (* C03: the decorated types whose description / rebuild / copy is examined, with their probe candidates *)
 EmitEq == /\ Assert(DescribeLaw(dt), <<"Rebuild(Describe(d)) # d in the model for", dt>>)
-          /\ PrintT(<<"EQ", ToJson([dt |-> dt, probes |-> SetToSeq({c \in Cands(dt) : ~HasInternal(c)})])>>)
+          /\ PrintT(<<"EQ", ToJson([dt |-> dt, probes |-> SetToSeq(IF dt.k = "command" THEN {} ELSE {c \in Cands(dt) : ~HasInternal(c)})])>>)
 =============================================================================
